@@ -57,7 +57,14 @@ def impl_main():
             d = os.path.join(root, "c%d" % n)
             os.mkdir(d)
             p = os.path.join(d, "node")
-            builtins.open(p, "wb").close()
+            alias = case.get("alias")          # the device path is an alias (a symlink, as /dev/disk/by-id/... or /dev/cdrom are) of the node
+            nreal = [0]
+            if alias:
+                real = os.path.join(d, "real0")
+                builtins.open(real, "wb").close()
+                os.symlink(real, p)
+            else:
+                builtins.open(p, "wb").close()
             del handles[:]
             state["close_fails"] = False
             inode_ids = {}
@@ -89,13 +96,25 @@ def impl_main():
                                 o = ["sent", handles.index(f), canon(f.inode), canon(node), not f.closed]
                             else:
                                 o = ["sent", 99, 0, canon(node), False]
+                    elif ev == "replug" and alias:
+                        # the alias now leads to another node; the node it led to before stays (alias == "keep") or goes away
+                        old_real = os.path.realpath(p) if os.path.lexists(p) else None
+                        nreal[0] += 1
+                        real = os.path.join(d, "real%d" % nreal[0])
+                        builtins.open(real, "wb").close()
+                        canon(os.stat(real).st_ino)
+                        tmp = p + ".new"
+                        os.symlink(real, tmp)
+                        os.replace(tmp, p)
+                        if alias == "remove" and old_real and os.path.exists(old_real):
+                            os.unlink(old_real)
                     elif ev == "replug":
                         tmp = p + ".new"
                         builtins.open(tmp, "wb").close()
                         canon(os.stat(tmp).st_ino)
                         os.replace(tmp, p)
                     elif ev == "unplug":
-                        if os.path.exists(p):
+                        if os.path.lexists(p):
                             os.unlink(p)
                     elif ev == "closefail_on":
                         state["close_fails"] = True
@@ -145,6 +164,16 @@ def gen_cases(seed, tier):
         n = rng.randint(3, 40)
         w = [5, 3, 1, 1, 1, 1, 1]
         cases.append(dict(detect=rng.random() < 0.7, rw=rng.random() < 0.5, events=rng.choices(EVENTS, weights=w, k=n)))
+    # the same when the device path is an alias of the node (a symlink): "the node that currently exists at the device path" is what the
+    # alias leads to NOW
+    for _ in range(300 if tier == "quick" else 3000):
+        n = rng.randint(2, 25)
+        w = [5, 4, 1, 1, 1, 1, 1]
+        cases.append(dict(detect=rng.random() < 0.8, rw=rng.random() < 0.5, alias=rng.choice(["keep", "remove"]),
+                          events=rng.choices(EVENTS, weights=w, k=n)))
+    for al in ("keep", "remove"):
+        for rw in (False, True):
+            cases.append(dict(detect=True, rw=rw, alias=al, events=["execute", "replug", "execute", "replug", "execute"]))
     return cases
 
 
